@@ -35,3 +35,18 @@ def seeks_from_start_sum_only(ctx, rule, body, label, allow_ops=(), recv_names=N
             bad = sorted(d.ops - ADDS - set(allow_ops) - {"Eq", "Ne", "Lt", "Le", "Gt", "Ge"}) + sorted({c2.split("::")[-1] for c2 in d.calls if "std::ops::" in c2 and c2.split("::")[-1] in BAD_TRAIT})
             ctx.ob(rule, f"{label}|position-sum-only", not bad, f"{label}: position of the seek at {at} is computed with {sorted(d.ops)}" + (f"; NOT A SUM: {bad}" if bad else " (additions only)"), body.file, body.line, trivial=True)
     return n
+
+
+def buffers_filled(ctx, rule, body, label, fillers=("read_exact", "read", "read_to_end", "no_header_decompress", "copy_from_slice", "clone_from_slice")):
+    """Every buffer `vec![x; n]` the reader allocates for stored bytes is handed, as an output, to a read (or the
+    decompressor) that the allocation dominates — a reader that forgets the read decodes the fill value.  -> allocations seen."""
+    ix = index_of(body)
+    allocs = [(bi, t) for bi, t in body.calls() if ix.callee(t).split("::")[-1] == "from_elem"]
+    fills = [(bi, t) for bi, t in body.calls() if ix.callee(t).split("::")[-1] in fillers]
+    n = 0
+    for ab, at in allocs:
+        n += 1
+        dl = at["dest"]["l"]
+        filled = any(body.dominates(ab, fb) and any(dl in derive(ix, o).locals for o in ft["args"][1:]) for fb, ft in fills)
+        ctx.ob(rule, f"{label}|buffer-filled", filled, f"{label}: the buffer allocated at {(at.get('sp') or {}).get('at')} is written by a read before it is decoded: {filled}", body.file, body.line, sample=(n == 1))
+    return n
